@@ -10,6 +10,7 @@ an in-place update."""
 from sa.h import *
 import copy
 import struct
+from sa.cfg import reaching_defs
 
 EXPLANATION = (
     "Decided (structural agreement writer <-> reader): (1) R6 the segment count, tail-segment size, block size and "
@@ -306,6 +307,52 @@ W2R = {
 }
 
 
+def _writer_constructions(idx, fn, writer_classes):
+    """[(call, [ClassInfo])]: the calls in `fn` that build a share write proxy - a call of a local every reaching
+    definition of which binds it to a write-proxy class (the class selection), or a call of such a class itself.
+    The local is identified by that role (how it is bound and used), not by its name."""
+    cfg = fn.cfg()
+    rd = reaching_defs(cfg)
+
+    def proxy(ci):
+        return isinstance(ci, ClassInfo) and any(c is w for c in ci.mro() for w in writer_classes)
+    out = []
+    for n in cfg.nodes:
+        for c in node_calls(n):
+            if not isinstance(c.func, ast.Name):
+                continue
+            ds = rd.get(n.id, {}).get(c.func.id)
+            if not ds:
+                ci = idx.resolve_expr(fn.module, c.func)
+                if proxy(ci):
+                    out.append((c, [ci]))
+                continue
+            bound = []
+            for d in sorted(ds):
+                v = assign_value(cfg.nodes[d], c.func.id) if d >= 0 else None
+                for _hop in range(4):           # class selection copied through plain names
+                    if not (isinstance(v, ast.Name) and d >= 0):
+                        break
+                    ds2 = rd.get(d, {}).get(v.id)
+                    if not ds2 or len(ds2) != 1 or min(ds2) < 0:
+                        break
+                    d = min(ds2)
+                    v = assign_value(cfg.nodes[d], v.id)
+                bound.append((v, idx.resolve_expr(fn.module, v) if v is not None else None))
+            if not any(proxy(ci) for (_v, ci) in bound):
+                continue
+            for (v, ci) in bound:
+                if not proxy(ci):
+                    raise AnalysisError("%s: the class the share writers are built from may be %s" % (
+                        fn.loc(c), src(fn, v) if v is not None else "an argument"))
+            classes = []
+            for (_v, ci) in bound:
+                if not any(ci is x for x in classes):
+                    classes.append(ci)
+            out.append((c, classes))
+    return out
+
+
 def _verinfo_positions(idx, r):
     """Positions of S, D, k, N (and the salt) in the 9-tuple built by each verinfo producer; they must agree."""
     prods = [(RP + ".get_verinfo._build_verinfo", {"self._segment_size": "S", "self._data_length": "D",
@@ -374,8 +421,16 @@ def run(ctx: Context):
         ret = idx.func(RET + "._setup_encoding_parameters")
         wpi = idx.func(WP + ".__init__")
         rpe = idx.func(RP + "._process_encoding_parameters")
-        T_PUB = [("self.datalength", "D"), ("self.segment_size", "S"), ("segment_size", "S"),
-                 ("self.required_shares", "K"), ("self.total_shares", "N")]
+        T_PUB = [("self.datalength", "D"), ("self.segment_size", "S"), ("self.required_shares", "K"),
+                 ("self.total_shares", "N")]
+        # Publish's locals are named by the attribute they are stored into (self.segment_size = <local>), whatever
+        # they are called
+        for n in pub.cfg().nodes:
+            if n.kind == "stmt" and isinstance(n.ast, ast.Assign) and isinstance(n.ast.value, ast.Name):
+                for t in n.ast.targets:
+                    sym = dict(T_PUB[:4]).get(attr_path(t))
+                    if sym and (n.ast.value.id, sym) not in T_PUB:
+                        T_PUB.append((n.ast.value.id, sym))
         T_RET = [("self.verinfo[%d]" % pos["D"], "D"), ("self.verinfo[%d]" % pos["S"], "S"),
                  ("self.verinfo[%d]" % pos["K"], "K"), ("self.verinfo[%d]" % pos["N"], "N"),
                  ("self._segment_size", "S"), ("self._required_shares", "K"), ("self._total_shares", "N"),
@@ -474,17 +529,10 @@ def run(ctx: Context):
         # Publish hands S, D, k, N to the write proxies in the proxies' own parameter order
         for wq in (PUB + ".publish", PUB + ".update"):
             wfn = idx.func(wq)
-            calls = [c for c in calls_in_func(wfn, "writer_class")]
-            if not calls:
-                raise AnchorVanished("%s no longer builds its writers through writer_class(...)" % wq)
-            classes = set()
-            for n in own_nodes(wfn.node):
-                if isinstance(n, ast.Assign) and any(attr_path(t) == "writer_class" for t in n.targets):
-                    ci = idx.resolve_expr(wfn.module, n.value)
-                    if not isinstance(ci, ClassInfo):
-                        raise AnalysisError("writer_class bound to %s" % src(wfn, n.value))
-                    classes.add(ci)
-            for c in calls:
+            built = _writer_constructions(idx, wfn, [idx.cls(WP), idx.cls(SW)])
+            if not built:
+                raise AnchorVanished("%s no longer builds its writers from a write-proxy class" % wq)
+            for (c, classes) in built:
                 for ci in sorted(classes, key=lambda x: x.qual):
                     init = ci.lookup("__init__")
                     ps = first_positional_params(init)
@@ -715,11 +763,15 @@ def run(ctx: Context):
             pieces.append(m.group(1) if m else "?" + norm_plain(e))
         # the whole share is the single write vector at offset 0
         ok0 = False
+        placed0 = []        # every one-element write-vector list that carries the joined share (whatever it is kept in)
         for nn in fp.cfg().nodes:
-            v = assign_value(nn, "datavs")
-            if isinstance(v, ast.List) and len(v.elts) == 1 and _pair(v.elts[0]):
-                o, d = _pair(v.elts[0])
-                ok0 = fpn.norm(nn, o) == "0" and fpn.resolve(nn, d) is joins[0]
+            for e in node_exprs(nn):
+                for v in own_nodes(e):
+                    if isinstance(v, ast.List) and len(v.elts) == 1 and _pair(v.elts[0]):
+                        o, d = _pair(v.elts[0])
+                        if fpn.resolve(nn, d) is joins[0]:
+                            placed0.append(fpn.norm(nn, o) == "0")
+        ok0 = bool(placed0) and all(placed0)
         r.require(ok0, fp, fp.loc(joins[0]), "the joined share is not the single write vector at offset 0")
         od = idx.func(SW + "._get_offsets_dict")
         odn = FlowNorm(od, depth=16)
@@ -870,16 +922,43 @@ def run(ctx: Context):
         if wpoly is None:
             raise AnchorVanished("put_block no longer queues a write vector")
         gb = idx.func(RP + ".get_block_and_salt")
-        then = None
+
+        def _read_vectors(nf, nfn):
+            """[(return node, node the list is built at, list, (offset, length))] for the returns of `nf` that give
+            a one-element read vector [(offset, length)] (directly or through a local, whatever it is called)."""
+            out = []
+            for n in nf.cfg().nodes:
+                if is_return(n) and n.ast.value is not None:
+                    dn, v = _def_of(nfn, n, n.ast.value)
+                    pr = _pair(v.elts[0]) if isinstance(v, ast.List) and len(v.elts) == 1 else None
+                    if pr is not None:
+                        out.append((n, dn, v, pr))
+            return out
+
+        # the callback that computes where to read: the one that returns the read vector
+        then = tn = None
         for nf in gb.nested.values():
-            if any("share_offset" in node_stores(n) for n in nf.cfg().nodes):
-                then = nf
+            nfn = FlowNorm(nf, rename={first_positional_params(gb)[0]: "SEG"}, depth=8)
+            if _read_vectors(nf, nfn):
+                if then is not None:
+                    raise AnalysisError("get_block_and_salt: two callbacks return a read vector")
+                then, tn = nf, nfn
         if then is None:
-            raise AnchorVanished("get_block_and_salt no longer computes share_offset")
-        tn = FlowNorm(then, rename={first_positional_params(gb)[0]: "SEG"}, depth=8)
+            raise AnchorVanished("get_block_and_salt no longer computes the read vector [(share offset, length)]")
+        cfg = then.cfg()
+        rvs = _read_vectors(then, tn)
+        rv = [dn for (_n, dn, _v, _pr) in rvs]
+        # the locals are identified by their role: component 0 of the read vector is the block offset, component 1
+        # the read length
+        offvars = {pr[0].id if isinstance(pr[0], ast.Name) else None for (_n, _dn, _v, pr) in rvs}
+        lenvars = {pr[1].id if isinstance(pr[1], ast.Name) else None for (_n, _dn, _v, pr) in rvs}
+        if len(offvars) != 1 or None in offvars or len(lenvars) != 1 or None in lenvars:
+            raise AnalysisError("get_block_and_salt: the read vector %s is not (offset local, length local)" % (
+                src(then, rvs[0][2])))
+        offvar, lenvar = offvars.pop(), lenvars.pop()
         seenv = set()
-        for nn in then.cfg().nodes:
-            v = assign_value(nn, "share_offset")
+        for nn in cfg.nodes:
+            v = assign_value(nn, offvar)
             if v is None:
                 continue
             ver = _node_version(idx, then, tn, nn)
@@ -898,20 +977,9 @@ def run(ctx: Context):
         if seenv != {0, 1}:
             raise AnchorVanished("get_block_and_salt._then: block offsets for versions %s" % sorted(map(str, seenv)))
         # read length: block (+ salt for MDMF)
-        cfg = then.cfg()
-        rvname = "readvs"
-        for n in cfg.nodes:          # the read vector is what _then returns (whatever the local is called)
-            if is_return(n) and isinstance(n.ast.value, ast.Name):
-                rvname = n.ast.value.id
-        rv = [n for n in cfg.nodes if rvname in node_stores(n)]
-        if not rv:                   # ... or returns directly (`return [(offset, length)]`)
-            rv = [n for n in cfg.nodes if is_return(n) and n.ast.value is not None
-                  and not isinstance(n.ast.value, ast.Name)]
         salted = [n for n in cfg.nodes if n.kind == "stmt" and isinstance(n.ast, ast.AugAssign)
-                  and isinstance(n.ast.op, ast.Add) and tn.norm(n, n.ast.value) == "SALT_SIZE"]
-        if not rv:
-            raise AnchorVanished("get_block_and_salt._then: read vector not found")
-        lenvar = attr_path(salted[0].ast.target) if salted else None
+                  and isinstance(n.ast.op, ast.Add) and attr_path(n.ast.target) == lenvar
+                  and tn.norm(n, n.ast.value) == "SALT_SIZE"]
         if not salted:
             r.violation(then, then.loc(rv[0].ast), "the MDMF read length no longer includes SALT_SIZE for the salt "
                         "stored in front of each block")
@@ -923,38 +991,48 @@ def run(ctx: Context):
                                          gate_edge=lambda a, lab: _edge_version(idx, then, tn, a, lab) == 0,
                                          kill=lambda m: lenvar in node_stores(m) and m not in salted):
             r.violation(then, then.loc(n.ast), "an MDMF block can be read without room for its salt (path: %s)" % w.brief(), w)
-        for n in rv:
-            v = n.ast.value if is_return(n) else assign_value(n, rvname)
-            pr = _pair(v.elts[0]) if isinstance(v, ast.List) and len(v.elts) == 1 else None
-            r.require(pr is not None and attr_path(pr[0]) == "share_offset" and (lenvar is None or attr_path(pr[1]) == lenvar), then,
-                      then.loc(n.ast), "read vector is %s" % src(then, v))
-        # split of salt || block
-        pr_ = None
-        for nf in gb.nested.values():
-            if any("salt" in node_stores(n) for n in nf.cfg().nodes) and nf is not then:
-                pr_ = nf
-        if pr_ is None:
+        # split of salt || block: the other callback; its result is the (block, salt) pair the callers unpack, so the
+        # first returned local plays the block and the second the salt
+        others = [nf for nf in gb.nested.values() if nf is not then]
+        if len(others) > 1:
+            others = [nf for nf in others if any(
+                is_return(n) and isinstance(_def_of(FlowNorm(nf, depth=8), n, n.ast.value)[1], ast.Tuple)
+                for n in nf.cfg().nodes)]
+        if len(others) != 1:
             raise AnchorVanished("get_block_and_salt no longer splits salt and block")
+        pr_ = others[0]
         prn = FlowNorm(pr_, depth=8)
-        got = {}
-        for nn in pr_.cfg().nodes:
-            for var in ("salt", "data"):
-                v = assign_value(nn, var)
-                if isinstance(v, ast.Subscript) and isinstance(v.slice, ast.Slice) and _node_version(idx, pr_, prn, nn) == 1:
-                    got[var] = (prn.norm(nn, v.value), prn.norm(nn, v.slice.lower) if v.slice.lower else None,
-                                prn.norm(nn, v.slice.upper) if v.slice.upper else None, nn)
-        if set(got) != {"salt", "data"}:
-            raise AnchorVanished("get_block_and_salt._process_results: MDMF salt/block slices not found")
-        r.site(pr_, got["salt"][3].ast, "salt || block split")
-        r.require(got["salt"][0] == got["data"][0] and got["salt"][1:3] == (None, "SALT_SIZE")
-                  and got["data"][1:3] == ("SALT_SIZE", None), pr_, pr_.loc(got["salt"][3].ast),
-                  "salt = X[%s:%s], block = X[%s:%s]; the writer stores salt (SALT_SIZE bytes) first" % (
-                      got["salt"][1], got["salt"][2], got["data"][1], got["data"][2]))
         rets = [n for n in pr_.cfg().nodes if is_return(n)]
+        if not rets:
+            raise AnchorVanished("get_block_and_salt no longer splits salt and block")
+        roles = set()
         for n in rets:
             v = _def_of(prn, n, n.ast.value)[1]
-            r.require(isinstance(v, ast.Tuple) and [attr_path(e) for e in v.elts] == ["data", "salt"], pr_, pr_.loc(n.ast),
+            okr = isinstance(v, ast.Tuple) and len(v.elts) == 2 and all(isinstance(e, ast.Name) for e in v.elts) \
+                and v.elts[0].id != v.elts[1].id
+            r.require(okr, pr_, pr_.loc(n.ast),
                       "get_block_and_salt returns %s, its callers unpack (block, salt)" % src(pr_, v))
+            if okr:
+                roles.add((v.elts[0].id, v.elts[1].id))
+        if len(roles) == 1:
+            blockvar, saltvar = roles.pop()
+            got = {}
+            for nn in pr_.cfg().nodes:
+                for role_, var in (("salt", saltvar), ("data", blockvar)):
+                    v = assign_value(nn, var)
+                    if isinstance(v, ast.Subscript) and isinstance(v.slice, ast.Slice) and _node_version(idx, pr_, prn, nn) == 1:
+                        got[role_] = (prn.norm(nn, v.value), prn.norm(nn, v.slice.lower) if v.slice.lower else None,
+                                      prn.norm(nn, v.slice.upper) if v.slice.upper else None, nn)
+            if set(got) != {"salt", "data"}:
+                raise AnchorVanished("get_block_and_salt._process_results: MDMF salt/block slices not found")
+            r.site(pr_, got["salt"][3].ast, "salt || block split")
+            r.require(got["salt"][0] == got["data"][0] and got["salt"][1:3] == (None, "SALT_SIZE")
+                      and got["data"][1:3] == ("SALT_SIZE", None), pr_, pr_.loc(got["salt"][3].ast),
+                      "salt = X[%s:%s], block = X[%s:%s]; the writer stores salt (SALT_SIZE bytes) first" % (
+                          got["salt"][1], got["salt"][2], got["data"][1], got["data"][2]))
+        elif roles:
+            r.violation(pr_, pr_.loc(), "get_block_and_salt returns its (block, salt) pair from different locals on "
+                        "different paths: %s" % sorted(roles))
 
     # ---- 5. tail selection and trim ---------------------------------------
     with ctx.rule("C09.5", "R1/R6", "the last segment (segnum + 1 == num_segments) uses the tail size / tail codec on "
@@ -1168,13 +1246,25 @@ def run(ctx: Context):
         du = idx.func(MFV + "._do_update_update")
         dun = FlowNorm(du, depth=8)
         off = first_positional_params(du)[1]
+        # the start segment, by role: what is recorded as self._start_segment and what opens the update_range handed
+        # to the servermap update (whatever local carries it)
+        starts = []
         for n in du.cfg().nodes:
-            v = assign_value(n, "start_segment")
+            v = assign_value(n, "self._start_segment")
             if v is not None:
-                r.site(du, n.ast, "start segment")
-                r.require(_canon(dun.norm(n, v), T) == norm_src("%s // S" % off), du, du.loc(n.ast),
-                          "update start segment is %s, Publish computes offset // segment size with the segment size "
-                          "at verinfo[%d]" % (dun.norm(n, v), iS))
+                starts.append((n, v))
+            for c in node_calls(n):
+                ur = kwarg(c, "update_range")
+                ur = dun.resolve(n, ur) if ur is not None else None
+                if isinstance(ur, ast.Tuple) and len(ur.elts) == 2:
+                    starts.append((_node_of(du, ur), ur.elts[0]))
+        if not starts:
+            raise AnchorVanished("_do_update_update no longer records / hands on the start segment of the update")
+        r.site(du, starts[0][0].ast, "start segment")
+        for (n, v) in starts:
+            r.require(_canon(dun.norm(n, v), T) == norm_src("%s // S" % off), du, du.loc(n.ast),
+                      "update start segment is %s, Publish computes offset // segment size with the segment size "
+                      "at verinfo[%d]" % (dun.norm(n, v), iS))
         pubs = idx.func(PUB + ".setup_encoding_parameters")
         pn_ = FlowNorm(pubs, depth=8)
         for (n, form, fin) in _attr_forms(pubs, pn_, "self.starting_segment", T_PUB):
@@ -1193,13 +1283,17 @@ def run(ctx: Context):
                           norm_plain(cc.args[i]) if i is not None and i < len(cc.args) else "nothing"))
         pu = idx.func(PUB + ".update")
         pun = FlowNorm(pu, depth=8)
-        for n in pu.cfg().nodes:
-            v = assign_value(n, "old_segcount")
-            if v is not None:
-                r.site(pu, n.ast, "old segment count")
-                r.require(_canon(pun.norm(n, v), T) == norm_src("div_ceil(D, S)"), pu, pu.loc(n.ast),
-                          "old segment count is %s; the file was laid out with div_ceil(verinfo[%d], verinfo[%d])" % (
-                              pun.norm(n, v), iD, iS))
+        # the old segment count, by role: the size the old block hash tree is rebuilt with
+        olds = [(n, c.args[0]) for n in pu.cfg().nodes for c in node_calls(n)
+                if call_tail(c) == "IncompleteHashTree" and len(c.args) == 1]
+        if not olds:
+            raise AnchorVanished("Publish.update no longer rebuilds the old block hash tree (IncompleteHashTree(<old "
+                                 "segment count>))")
+        for (n, v) in olds:
+            r.site(pu, n.ast, "old segment count")
+            r.require(_canon(pun.norm(n, v), T) == norm_src("div_ceil(D, S)"), pu, pu.loc(n.ast),
+                      "old segment count is %s; the file was laid out with div_ceil(verinfo[%d], verinfo[%d])" % (
+                          pun.norm(n, v), iD, iS))
         sv = idx.func("mutable.servermap:ServerMap.size_of_version")
         svn = FlowNorm(sv)
         for n in sv.cfg().nodes:
